@@ -349,3 +349,41 @@ theorem getLpm_eq {k : List Bool} {t : Tree w V} (hwf : WF k t) (q : Pfx w) (bes
       rw [hnil]; simp [orElse]
 
 end Tree
+
+namespace Tree
+variable {w : Nat} {V : Type}
+open Pfx
+
+theorem pvList_of_pv {t : Tree w V} : t.pvList = t.pv.toList := rfl
+
+/-- the loop of `get_spm`, entered at a node without a value, returns the first item `Cover` yields
+below that node -/
+theorem getSpmGo_eq (t : Tree w V) (q : Pfx w) (h : t.pv = none) : getSpmGo t q = (coverGo t q).head? := by
+  induction t with
+  | nil => rfl
+  | node s p v l r ihl ihr =>
+    have hv : v = none := by cases v <;> simp_all [pv]
+    subst hv
+    unfold getSpmGo coverGo
+    cases hd : getDir p l r q with
+    | reached => rfl
+    | missing => rfl
+    | enter b =>
+      cases b
+      · simp only
+        cases hp : l.pv with
+        | some x => simp [pvList_of_pv, hp]
+        | none => simp [pvList_of_pv, hp, ihl hp]
+      · simp only
+        cases hp : r.pv with
+        | some x => simp [pvList_of_pv, hp]
+        | none => simp [pvList_of_pv, hp, ihr hp]
+
+/-- shortest-prefix match = the first item of `cover` -/
+theorem getSpm_eq (t : Tree w V) (q : Pfx w) : getSpm t q = (cover t q).head? := by
+  unfold getSpm cover
+  cases hp : t.pv with
+  | some x => simp [pvList_of_pv, hp]
+  | none => simp [pvList_of_pv, hp, getSpmGo_eq t q hp]
+
+end Tree
